@@ -1,7 +1,7 @@
 (* Properties/C15_instance.v -- C15 for the access table that `nxh locks-extract`
    regenerates from /repo's current source on every run (Gen/AccessTable.v).
    Compiled by bin/check C15, not part of the static project. *)
-From NX Require Import Bytes Locks LockFacts AccessTable.
+From NX Require Import Bytes Locks LockFacts Rmw RmwFacts AccessTable.
 
 Theorem C15_table_ok : table_ok table = true.
 Proof. vm_compute. reflexivity. Qed.
@@ -11,3 +11,19 @@ Theorem C15_no_race : forall ps sched ts,
   (forall p, In p ps -> In p table) -> trun (start ps) sched = Some ts -> ~ race ts.
 Proof. exact (table_ok_sound table C15_table_ok). Qed.
 Print Assumptions C15_no_race.
+
+(* check-then-act: every method body of the shared types, taken on its own (helpers run under the caller's
+   lock and one-section accessors expanded), writes a location it has read before only while a read of it is
+   still in force -- under locks none of which has been released since (Model/Rmw.v) *)
+Theorem C15_frames_ok : frames_ok frames = true.
+Proof. vm_compute. reflexivity. Qed.
+Print Assumptions C15_frames_ok.
+
+(* and while such a read is in force no other thread can be about to write the location: no lost update,
+   for any number of threads running paths of the table, under every schedule *)
+Theorem C15_no_lost_update : forall ps sched ts i ti x hr,
+  (forall p, In p ps -> In p table) -> trun (start ps) sched = Some ts ->
+  nth_error ts i = Some ti -> In (x, hr) (cur_reads (rev (done_rev ti))) ->
+  forall j tj, j <> i -> nth_error ts j = Some tj -> next_access tj <> Some (x, KWrite).
+Proof. exact (rmw_exclusive_ok table C15_table_ok). Qed.
+Print Assumptions C15_no_lost_update.
